@@ -33,3 +33,51 @@ Fixpoint show_jval (v : jval) : bytes :=
 (* an object of key:value members; keys are configured names, written between quotes as they are *)
 Definition show_member (kv : bytes * jval) : bytes := 34 :: fst kv ++ [34; 58] ++ show_jval (snd kv).
 Definition format_object (ms : list (bytes * jval)) : bytes := 123 :: intersperse [44] (map show_member ms) ++ [125].
+
+(* ---- strings of ARBITRARY bytes (encoding/json on a Go string that need not be valid UTF-8) ----
+   bytes < 0x80 as above; a well-formed multi-byte UTF-8 sequence is copied, except U+2028 / U+2029 which are
+   written   /  ; any byte that does not start a well-formed sequence becomes � *)
+Definition cont (x : N) : bool := (128 <=? x) && (x <=? 191).
+(* length of the well-formed multi-byte sequence at the head of s, 0 if there is none (utf8.DecodeRune's table) *)
+Definition utf8_len (s : bytes) : nat :=
+  match s with
+  | b0 :: r =>
+      if (194 <=? b0) && (b0 <=? 223) then
+        match r with b1 :: _ => if cont b1 then 2%nat else 0%nat | _ => 0%nat end
+      else if (224 <=? b0) && (b0 <=? 239) then
+        match r with
+        | b1 :: b2 :: _ =>
+            let lo := if b0 =? 224 then 160 else 128 in
+            let hi := if b0 =? 237 then 159 else 191 in
+            if (lo <=? b1) && (b1 <=? hi) && cont b2 then 3%nat else 0%nat
+        | _ => 0%nat
+        end
+      else if (240 <=? b0) && (b0 <=? 244) then
+        match r with
+        | b1 :: b2 :: b3 :: _ =>
+            let lo := if b0 =? 240 then 144 else 128 in
+            let hi := if b0 =? 244 then 143 else 191 in
+            if (lo <=? b1) && (b1 <=? hi) && cont b2 && cont b3 then 4%nat else 0%nat
+        | _ => 0%nat
+        end
+      else 0%nat
+  | [] => 0%nat
+  end.
+
+Fixpoint esc_utf8 (fuel : nat) (s : bytes) : bytes :=
+  match fuel with
+  | O => []
+  | S f =>
+      match s with
+      | [] => []
+      | b :: r =>
+          if b <? 128 then esc_byte b ++ esc_utf8 f r
+          else match utf8_len s with
+               | O => [92; 117; 102; 102; 102; 100] ++ esc_utf8 f r
+               | n => if (b =? 226) && (nth 1 s 0 =? 128) && ((nth 2 s 0 =? 168) || (nth 2 s 0 =? 169))
+                      then [92; 117; 50; 48; 50; if nth 2 s 0 =? 168 then 56 else 57] ++ esc_utf8 f (skipn 3 s)
+                      else firstn n s ++ esc_utf8 f (skipn n s)
+               end
+      end
+  end.
+Definition esc_string_utf8 (s : bytes) : bytes := 34 :: esc_utf8 (length s) s ++ [34].
